@@ -87,7 +87,7 @@ def parseScenario (toks : List Int) : Option (Cfg × List CallSpec × List (List
     | _ => none
   | _ => none
 
-/-- `AB c | d <batch_size> <num> <den> …` : a run of the auto-batching state machine → the batch sizes returned. -/
+/-- `AB c | d <batch_size> <num> <den> | r | n <n_tasks|-1> <n_dispatched> <n_workers> …` : a run of the auto-batching state machine → the batch sizes returned. -/
 def parseAB : List String → Option (List AutoBatch.Op)
   | [] => some []
   | "c" :: r => (parseAB r).map (AutoBatch.Op.compute :: ·)
@@ -98,6 +98,15 @@ def parseAB : List String → Option (List AutoBatch.Op)
     if d = 0 then none
     let rest ← parseAB r
     pure (AutoBatch.Op.completed b ⟨n, d⟩ :: rest)
+  -- `r`: `reset_batch_stats()` (terminate);  `n <n_tasks|-1> <n_dispatched> <n_workers>`: another call on the managed object
+  | "r" :: r => (parseAB r).map (AutoBatch.Op.reset :: ·)
+  | "n" :: nt :: nd :: nw :: r => do
+    let nt ← nt.toInt?
+    let nd ← nd.toNat?
+    let nw ← nw.toNat?
+    if nt < -1 then none
+    let rest ← parseAB r
+    pure (AutoBatch.Op.newCall (if nt < 0 then none else some nt.toNat) nd nw :: rest)
   | _ => none
 
 def handle (line : String) : String :=
